@@ -6,10 +6,12 @@ import (
 	"fmt"
 	"os"
 	"os/exec"
+	"os/signal"
 	"path/filepath"
 	"regexp"
 	"sort"
 	"strings"
+	"syscall"
 	"time"
 
 	"gosym/sym"
@@ -279,6 +281,15 @@ func cmdCheck(args []string) {
 	// ---- classify violations ----
 	rp := newReplayer(*repo)
 	defer rp.cleanup()
+	// a check that is interrupted removes its scratch directories as well
+	sigc := make(chan os.Signal, 1)
+	signal.Notify(sigc, syscall.SIGTERM, syscall.SIGINT)
+	go func() {
+		<-sigc
+		rp.cleanup()
+		cleanupGen()
+		os.Exit(2)
+	}()
 	type group struct {
 		key  string
 		list []sym.Violation
@@ -795,8 +806,12 @@ func (r *replayer) replayRaw(v sym.Violation, path string) (string, error) {
 		return err.Error(), err
 	}
 	// ulimit -s caps the stack so unbounded recursion dies quickly; timeout catches hangs
-	script := fmt.Sprintf("ulimit -v 8000000; cd %q && VERIF_REPLAY=%q timeout -s KILL 30 %q -test.run '^TestVerifReplay$' -test.count=1 -test.timeout 25s 2>&1 | head -c 20000; echo EXIT=${PIPESTATUS[0]}",
-		filepath.Join(r.repo, v.Pkg), path, bin)
+	// everything the native run creates with os.MkdirTemp("") (staged project directories) lands under the
+	// replayer's scratch directory and disappears with it
+	tmpd := filepath.Join(r.scratch, "tmp")
+	os.MkdirAll(tmpd, 0o755)
+	script := fmt.Sprintf("ulimit -v 8000000; export TMPDIR=%q; cd %q && VERIF_REPLAY=%q timeout -s KILL 30 %q -test.run '^TestVerifReplay$' -test.count=1 -test.timeout 25s 2>&1 | head -c 20000; echo EXIT=${PIPESTATUS[0]}",
+		tmpd, filepath.Join(r.repo, v.Pkg), path, bin)
 	cmd := exec.Command("bash", "-c", script)
 	cmd.Env = goEnv()
 	out, _ := cmd.CombinedOutput()
